@@ -19,7 +19,9 @@ Family 'unblock' (gen_unblock_history): a connector whose straight src-dst segme
 1-3 bystander obstacles beside the line (so that a detour exists once the direct edge is missing), first transaction; then the blocker is
 deleted / moved away / shrunk off the line (two blockers: in one transaction or in consecutive ones); then optionally: the line is blocked
 again (moved back / a new shape dropped on it) and freed again, a bystander or an endpoint is moved.  After every processTransaction the
-direct segment must be the route whenever it is free."""
+direct segment must be the route whenever it is free.  Variant 'between' (1/3, gen_unblock_between): three obstacles in a row across the line,
+the wider middle one leaves - the optimal route then needs a corner-to-corner edge between the two that stay (a hand mutation that never
+re-derives shape-vertex / shape-vertex edges in checkAllMissingEdges was invisible to the direct-line variant)."""
 from checks import avoid_lib as A
 
 # (name, flags)   flags = tuple of (member name, value)
@@ -67,8 +69,73 @@ def _near_line_poly(h, s, d, crossing, tries=60):
             yield P
 
 
+def gen_unblock_between(rng, R=40):
+    """variant 'between' (a shape-vertex / shape-vertex edge must come back): three obstacles in a row across the connector's line - two
+    that stay (A, B) and a WIDER one between them (M) - so that on either side the tangent segment from a corner of A to a corner of B passes
+    through M's interior.  First transaction (route round all three), then M is deleted / moved far away / shrunk away: the optimal route now
+    bends at a corner of A and at a corner of B and needs the corner-corner edge that M blocked.  Built in a canonical frame (line along x),
+    then one of the 8 symmetries, a scale and an offset; all heights distinct (generic position is re-checked by plain_scene_valid)."""
+    h = A._Hist(rng, True, R)
+    for _ in range(30):
+        xa, wa = rng.range(4, 7), rng.range(2, 4)
+        xm = xa + wa + rng.range(2, 4); wm = rng.range(3, 6)
+        xb = xm + wm + rng.range(2, 4); wb = rng.range(2, 4)
+        L = xb + wb + rng.range(4, 7)
+        a1, a2, b1, b2 = rng.range(3, 6), rng.range(3, 6), rng.range(3, 6), rng.range(3, 6)
+        m1, m2 = max(a1, b1) + rng.range(2, 5), max(a2, b2) + rng.range(2, 5)
+        sym = rng.choice(A.SYMS); sc = rng.choice([1, 1, 2]); off = (rng.range(-10, 30), rng.range(-10, 30))
+        rects = [(xa, -a1, xa + wa, a2), (xm, -m1, xm + wm, m2), (xb, -b1, xb + wb, b2)]
+        s, d = A._xf(sym, sc, off, (0, rng.range(-1, 1))), A._xf(sym, sc, off, (L, rng.range(-1, 1)))
+        shapes = {i + 1: A._xf_rect(sym, sc, off, r) for i, r in enumerate(rects)}
+        if not A.plain_scene_valid(shapes, {100: (s, d)}):
+            continue
+        h.shapes, h.conns = {}, {}
+        h.ops = []
+        ok = all(h.try_op(('A', i, shapes[i])) for i in (1, 2, 3)) and h.try_op(('C', 100, s, d))
+        if not ok:
+            continue
+        h.nid, h.ncid = 4, 101
+        h.P()
+        k = rng.choice(['delete', 'move', 'shrink'])
+        done = False
+        if k == 'move':
+            for _ in range(40):
+                dx, dy = rng.range(-60, 60), rng.range(-60, 60)
+                P2 = [(x + dx, y + dy) for x, y in h.shapes[2]]
+                b2x = A.bbox(P2); bA, bB = A.bbox(h.shapes[1]), A.bbox(h.shapes[3])
+                hull = (min(bA[0], bB[0], s[0], d[0]), min(bA[1], bB[1], s[1], d[1]), max(bA[2], bB[2], s[0], d[0]), max(bA[3], bB[3], s[1], d[1]))
+                if A.box_sep(b2x, hull, 1) and h.try_op(('M', 2, dx, dy)):
+                    done = True
+                    break
+        elif k == 'shrink':
+            for _ in range(40):
+                x0, y0 = rng.range(-40, 70), rng.range(-40, 70)
+                P2 = A.rect_poly((x0, y0, x0 + rng.range(2, 4), y0 + rng.range(2, 4)))
+                bA, bB = A.bbox(h.shapes[1]), A.bbox(h.shapes[3])
+                hull = (min(bA[0], bB[0], s[0], d[0]), min(bA[1], bB[1], s[1], d[1]), max(bA[2], bB[2], s[0], d[0]), max(bA[3], bB[3], s[1], d[1]))
+                if A.box_sep(A.bbox(P2), hull, 1) and h.try_op(('T', 2, P2)):
+                    done = True
+                    break
+        if not done:
+            k = 'delete'
+            if not h.try_op(('D', 2)):
+                continue
+        h.P()
+        tags = ['between', 'between:' + k]
+        if rng.chance(1, 3):
+            for _ in range(20):
+                p = A.free_point(rng, list(h.shapes.values()), R, use_bbox=True)
+                if h.try_op(('E', 100, rng.below(2), p)):
+                    h.P(); tags.append('endpoint-moved')
+                    break
+        return h.ops, tags
+    return None, None
+
+
 def gen_unblock_history(rng, rect_only=False, R=40):
     """-> (ops, tags) or (None, None).  See the module docstring."""
+    if rng.chance(1, 3):
+        return gen_unblock_between(rng, R)
     h = A._Hist(rng, rect_only, R)
     tags = []
     if not h.add_shapes(1):
